@@ -38,6 +38,7 @@ PURE_UNINTERPRETED = {
     "percentile", "nanmin", "nanmax", "nanmean", "count_nonzero", "logical_and", "logical_or", "logical_not",
     "array_split", "vstack", "hstack", "column_stack", "tile", "outer", "dot", "prod", "nanpercentile",
     "lexsort", "partition", "argpartition", "digitize", "meshgrid", "full", "eye", "identity", "triu", "tril",
+    "issubdtype", "finfo", "iinfo", "result_type", "promote_types", "can_cast",
 }
 
 BUILTIN_TYPES = {"str", "int", "float", "bool", "list", "tuple", "dict", "set", "bytes", "object", "type"}
@@ -550,7 +551,8 @@ def np_call(ev, name, args, kwargs, node):
         return mk_app("max" if "max" in name else "min", [as_v(ev, arg(0)), as_v(ev, arg(1))])
     if name == "clip":
         x, lo, hi = as_v(ev, arg(0, "a")), as_v(ev, arg(1, "a_min")), as_v(ev, arg(2, "a_max"))
-        return mk_app("max", [lo, mk_app("min", [hi, x])])
+        r = x if hi == Const(None) else mk_app("min", [hi, x])   # a bound of None is no bound
+        return r if lo == Const(None) else mk_app("max", [lo, r])
     if name in ("floor", "ceil"):
         x0 = as_v(ev, arg(0))
         if isinstance(x0, Vec) and x0.items:
